@@ -215,7 +215,7 @@ the sign array starts as the sentinel `(7, 7)` everywhere; answer: `tt'` and the
 def cmdSweep2 : StateT Toks (Except String) String := do
   let nz ← popNat; let nx ← popNat; let i ← popNat; let j ← popNat
   let svz ← popInt; let svx ← popInt; let stz ← popInt; let stx ← popInt
-  let zsi ← popInt; let xsi ← popInt; let grad ← popNat
+  let zsi ← popInt; let xsi ← popInt; let grad ← popNat; let sgm ← popNat
   let dz ← popF; let dx ← popF; let zsa ← popF; let xsa ← popF; let vz ← popF
   let tt ← popGrid2 nz nx
   let slow ← popGrid2 (nz - 1) (nx - 1)
@@ -223,7 +223,7 @@ def cmdSweep2 : StateT Toks (Except String) String := do
   let dxi := (1.0 : Float) / dx
   let p : Par2 Float := { dz, dx, dzi, dxi, dz2i := dzi / dz, dx2i := dxi / dx, zsi, xsi, zsa, xsa,
                           vzero := vz, big, nz, nx }
-  let sgn : Grid2 (Int × Int) := if grad != 0 then Grid2.full nz nx (7, 7) else #[]
+  let sgn : Grid2 (Int × Int) := if grad != 0 then Grid2.full nz nx (if sgm == 1 then (stz, stx) else (7, 7)) else #[]
   let s := nodeUpdate2 p slow (grad != 0) ⟨tt, sgn⟩ i j ⟨svz, svx, stz, stx⟩
   let sg := s.sgn.get (7, 7) i j
   pure s!"ok {outGrid2 s.tt} {sg.1} {sg.2}"
@@ -231,12 +231,12 @@ def cmdSweep2 : StateT Toks (Except String) String := do
 def cmdSweep3 : StateT Toks (Except String) String := do
   let nz ← popNat; let nx ← popNat; let ny ← popNat; let i ← popNat; let j ← popNat; let k ← popNat
   let svz ← popInt; let svx ← popInt; let svy ← popInt; let stz ← popInt; let stx ← popInt; let sty ← popInt
-  let grad ← popNat
+  let grad ← popNat; let sgm ← popNat
   let dz ← popF; let dx ← popF; let dy ← popF
   let tt ← popGrid3 nz nx ny
   let slow ← popGrid3 (nz - 1) (nx - 1) (ny - 1)
   let p := mkPar3 big dz dx dy nz nx ny
-  let sgn : Grid3 (Int × Int × Int) := if grad != 0 then Grid3.full nz nx ny (7, 7, 7) else #[]
+  let sgn : Grid3 (Int × Int × Int) := if grad != 0 then Grid3.full nz nx ny (if sgm == 1 then (stz, stx, sty) else (7, 7, 7)) else #[]
   let s := nodeUpdate3 p slow (grad != 0) ⟨tt, sgn⟩ i j k ⟨svz, svx, svy, stz, stx, sty⟩
   let sg := s.sgn.get (7, 7, 7) i j k
   pure s!"ok {outGrid3 s.tt} {sg.1} {sg.2.1} {sg.2.2}"
